@@ -1,0 +1,1 @@
+//! verification hooks: misc
